@@ -1,4 +1,5 @@
 import Fzf.Lemmas.ChunkHeap
+import Fzf.Lemmas.ChunkTail
 import Fzf.Lemmas.Scan
 /-
 C13 — loading and searching run concurrently without interfering.
@@ -69,6 +70,35 @@ theorem C13_frozen_prefix (cz : Nat) (before after : List Op) (h : noTail before
   have := C13_list_is_pushed cz before h ⟨[], []⟩ wf_empty
   simpa [contents] using this
 
+/-- **A snapshot under --tail is the last N items.** At any reachable moment, `Snapshot(tail)`
+    hands out — and leaves in the list — exactly the last `tail` items the list held, in order
+    (all of them when there are fewer). -/
+theorem C13_tail_snapshot_is_last_n (cz tail : Nat) (ht : 0 < tail) (before : List Op) :
+    let cl := before.foldl (step cz) ⟨[], []⟩
+    let r := snapshot tail cl
+    contents r.1 r.2 = lastN tail (contents cl cl.ids) ∧ contents r.1 r.1.ids = lastN tail (contents cl cl.ids) :=
+  snapshot_tail_contents tail _ (steps_wf cz before _ wf_empty) ht
+
+/-- **`changed` is exact.** At any reachable moment `Snapshot` reports `changed` if and only if the
+    list afterwards holds other items than before (the coordinator bumps the revision on it, and
+    everything cached per revision depends on that). -/
+theorem C13_changed_exact (cz tail : Nat) (before : List Op) :
+    let cl := before.foldl (step cz) ⟨[], []⟩
+    changed tail cl = true ↔ contents (snapshot tail cl).1 (snapshot tail cl).1.ids ≠ contents cl cl.ids :=
+  changed_iff tail _ (steps_wf cz before _ wf_empty)
+
+/-- **Same revision and same count ⇒ same items.** Along any history of pushes and snapshots (with
+    or without --tail), with the revision bumped exactly when `Snapshot` reports `changed`, two
+    snapshots taken under the same revision that report the same count hold the same items. This
+    is the hypothesis `Valid` of `C08_merger_cache_transparent`: a merger cached for (revision,
+    count) is a merger for the very same items. -/
+theorem C13_same_revision_same_items (cz tail : Nat) (ops : List Op) :
+    (coRun cz tail ⟨[], []⟩ 0 ops).Pairwise fun a b =>
+      a.rev = b.rev → a.items.length = b.items.length → a.items = b.items := by
+  refine (coRun_pairwise cz tail ops _ 0 wf_empty).imp ?_
+  intro a b h hr hl
+  exact List.IsPrefix.eq_of_length (h hr) hl
+
 /-- The count reported with a snapshot is the number of items it holds. -/
 theorem C13_count_consistent (cl : CL) (snap : List Nat) :
     countItems cl snap = (contents cl snap).length := by
@@ -107,5 +137,11 @@ example :
     let r := snapshot 0 cl
     let cl2 := [Op.push 4, .push 5].foldl (step 2) r.1
     contents cl2 r.2 = [1, 2, 3] ∧ contents cl2 cl2.ids = [1, 2, 3, 4, 5] := by decide
+
+/-- --tail 2 over pushes 1..5 with snapshots in between: the revision is bumped exactly by the
+    snapshots that drop something, and every snapshot shows the last two items. -/
+example :
+    (coRun 2 2 ⟨[], []⟩ 0 [.push 1, .push 2, .snap 2, .push 3, .snap 2, .snap 2, .push 4, .push 5, .snap 2]).map
+      (fun r => (r.rev, r.items)) = [(0, [1, 2]), (1, [2, 3]), (1, [2, 3]), (2, [4, 5])] := by decide
 
 end Fzf.Props.C13
